@@ -36,6 +36,7 @@ type Job struct {
 	Budget  float64 // seconds per shard; 0 = none
 	Horizon int
 	Race    bool
+	EnvOnly bool // default schedule only: branch on environment (input/configuration) choices
 }
 
 // Check describes one property's check.
@@ -183,6 +184,9 @@ func runTask(bin string, t *task, work string) {
 	}
 	if j.Horizon > 0 {
 		args = append(args, "-horizon", strconv.Itoa(j.Horizon))
+	}
+	if j.EnvOnly {
+		args = append(args, "-envonly")
 	}
 	cmd := exec.Command(bin, args...)
 	cmd.Dir = work
